@@ -387,3 +387,27 @@ Proof.
     destruct (do_finalising _ _ _ _ _ _) as [[[d s1] b'] an]. discriminate.
   - destruct (do_finalising _ _ _ _ _ _) as [[[d s1] b'] an]. discriminate.
 Qed.
+
+(* ---------- C18 / C05: an exit is declared finished only when the BatchRelease is gone ---------- *)
+Lemma finalise_done_clean sp u w br r wr u' br' :
+  finalise sp u w br r wr = (true, u', br') -> su_fin u <> FtEnd -> release_not_yet_done r (su_fin u) = true -> br' = None.
+Proof.
+  unfold finalise. intros H Hne Hrel.
+  destruct (su_fin u) eqn:Hf; try congruence; destruct r; cbn in H, Hrel; try discriminate;
+  repeat match type of H with
+  | context [match ?x with _ => _ end] => destruct x eqn:?; cbn in H; try discriminate
+  | context [if ?c then _ else _] => destruct c eqn:?; cbn in H; try discriminate
+  end; inversion H; subst; try reflexivity; try discriminate.
+Qed.
+
+(* whichever exit (success, rollback, delete, disable) is being finalised: the finalising sequence reports done only
+   once the BatchRelease is gone, and the in-progress marker is removed from the workload in the same reconcile *)
+Theorem do_finalising_done_clean sp s w br r wr u s1 br' anno :
+  do_finalising sp s w br r wr = (true, s1, br', anno) -> rp_sub s = Some u -> su_fin u <> FtEnd ->
+  release_not_yet_done r (su_fin u) = true ->
+  br' = None /\ anno = (wl_exists w && wl_consistent w && wl_in_progress w).
+Proof.
+  unfold do_finalising. intros H Hu Hne Hrel. rewrite Hu in H.
+  destruct (finalise sp u w br r wr) as [[d u'] b'] eqn:Hf. inversion H; subst. split; [|reflexivity].
+  eapply finalise_done_clean; eauto.
+Qed.
